@@ -34,6 +34,9 @@ EXPLANATION = (
     "that rounds up makes np.clip let values through that overflow the "
     "cast. R4: scale exponents and operators of the inverse conversions; "
     "sign-bit test of fix_to_float.")
+EXPLANATION += (
+    " R2 reads class-level tables through self when folding __init__, and "
+    "decides saturation made under np.any() tests by cases on the tests.")
 NOT_DECIDED = [
     "monotonicity, within-one-LSB and exact round trip over the float line "
     "(floating-point semantics; a numerical/runtime technique)",
